@@ -2,37 +2,36 @@ SPECIFICATION Spec
 CONSTANTS
   PosPeriod = 1
   NegPeriod = 0
-  MaxClock = 2
-  MaxCalls = 3
+  MaxClock = 0
+  MaxCalls = 4
   AllowRChoices = {{}}
   AllowSChoices = {{"R"}}
-  RecogAInit = {TRUE, FALSE}
+  RecogAInit = {TRUE}
   ChainPeers = {"A"}
-  MaxChain = 1
+  MaxChain = 0
   MaxErr = 0
-  GuardOn = TRUE
+  GuardOn = FALSE
   Nonces = {1}
   HsBudget = 0
   MaxDials = 1
   MaxAdvDials = 1
   MaxDrops = 0
   Handlers = {"h1"}
-  CancelHandlers = {"h1"}
+  CancelHandlers = {}
   MaxSend = 1
   MaxRetx = 2
   Cap = 1
   SecondCheck = TRUE
   Filter = TRUE
-  MaxTicks = 1
+  MaxTicks = 0
   Backoff1 = FALSE
   Backoff2 = TRUE
-  CancelMsgs = {1}
+  CancelMsgs = {}
   MaxAdv = 1
-  AdvKinds = {"own", "impostor"}
+  AdvKinds = {"impostor"}
   FwInbound = TRUE
   VerifyAct1 = TRUE
-  MatchInner = TRUE
+  MatchInner = FALSE
   StrictSign = TRUE
-INVARIANTS TypeOK FirewallInvs HandshakeInvs BroadcastInvs RetransmissionInvs
-  LinkAuthenticated LinkJustified HopAdmitted RejectedNeverDelivered NoImpostor Authentic
-  PubsExact SenderStops WireOnLiveLinks
+  Reduce = TRUE
+INVARIANTS TypeOK HandlerSeesAuthor
